@@ -126,6 +126,11 @@ class Report:
                   violations=len(self.violations))
         os.makedirs(os.path.join(ROOT, 'evidence'), exist_ok=True)
         path = os.path.join(ROOT, 'evidence', '%s.json' % self.pid)
+        if os.environ.get('VMC_NO_EVIDENCE'):
+            # trial runs against a mutated scratch copy (tools/try_mutant.sh)
+            # must not overwrite the evidence of the real tree
+            path = os.path.join(ROOT, 'replays', 'trial-%s.json' % self.pid)
+            os.makedirs(os.path.dirname(path), exist_ok=True)
         tmp = path + '.tmp'
         with open(tmp, 'w') as f:
             json.dump(ev, f, indent=1, sort_keys=True, default=repr)
